@@ -706,6 +706,8 @@ class Evaluator:
             if a.kwarg:
                 kwarg = a.kwarg.arg
                 self.env[kwarg] = ("param", "**" + kwarg)
+        self._mapping_params = {pn for pn, an in annotations.items()
+                                if ast.unparse(an).split("[")[0].split(".")[-1] in ("Dict", "dict", "Mapping", "MutableMapping", "OrderedDict", "DefaultDict")}
         for pname, ann in annotations.items():
             ci_ = self._record_class_of_annotation(ann, self.module)
             if ci_ is not None:
@@ -2207,7 +2209,8 @@ class Evaluator:
                 and isinstance(n.args[0], (ast.Name, ast.Attribute, ast.Dict)):
             # dict(d) of a mapping is the fresh copy {**d}; dict(d, k=v, **e) is {**d, "k": v, **e}
             src_ = self.ev(n.args[0], live)
-            if src_[0] in ("param", "attr", "dict") and not (src_[0] == "param" and src_[1].startswith("*") and not src_[1].startswith("**")):
+            # (only of something KNOWN to be a mapping: dict(model) iterates a pydantic model's (name, value) pairs, {**model} fails)
+            if src_[0] == "dict" or (src_[0] == "param" and (src_[1].startswith("**") or src_[1] in getattr(self, "_mapping_params", ()))):
                 items_ = list(src_[1]) if src_[0] == "dict" else [(("dstar",), src_)]
                 for k_ in n.keywords:
                     items_.append(((("dstar",) if k_.arg is None else ("const", k_.arg)), self.ev(k_.value, live)))
@@ -3496,16 +3499,21 @@ class Evaluator:
         if prep is None:
             return None
         cs, inst, idmap, qual = prep
+        if cs.is_generator and len(cs.yields) == 2:
+            cs = _merge_two_yields(cs) or cs
         ys = cs.yields
         if not cs.is_generator or len(ys) != 1 or not ys[0].loops:
             return None
         y = ys[0]
-        # `return` inside the generator's loop ends the iteration: it is the consumer loop's `break` -- before the yield only (after
-        # it, the consumer's body would have to run first); a `return` in front of the loop (no elements at all) is not read
+        # `return` inside the generator's loop ends the iteration: it is the consumer loop's `break` -- in front of the yield at once,
+        # after the yield (same loop) once the consumer's body has run; a `return` in front of the loop (no elements at all) is not read
         rets_ = [e for e in cs.of("return") if e.node is not None and isinstance(e.node, ast.Return)]
-        if any((e.idx > y.idx and e.loops) or (e.idx < y.idx and not e.loops) or (e.loops and tuple(e.loops) != tuple(y.loops[:len(e.loops)])) for e in rets_):
+        if any((e.idx > y.idx and e.loops and tuple(e.loops) != tuple(y.loops)) or (e.idx < y.idx and not e.loops)
+               or (e.loops and tuple(e.loops) != tuple(y.loops[:len(e.loops)])) for e in rets_):
             return None
-        after = [e for e in cs.events if e.idx > y.idx and e.kind != "return"]
+        import dataclasses as _dc0
+        after = [(_dc0.replace(e, kind="break", term=NONE) if e.kind == "return" else e) for e in cs.events
+                 if e.idx > y.idx and (e.kind != "return" or (e in rets_ and e.loops))]
         if any(e.kind in ("store", "call", "raise", "yield") and set(y.loops) & set(e.loops) for e in after):
             return None  # work after the yield inside the loop would have to run after the consumer's body
         self._register_inlined(cs, inst, idmap)
@@ -4225,6 +4233,45 @@ def _join_as_fstr(sep, seq):
         else:
             push(x[2][0])
     return ("fstr", tuple(parts))
+
+
+def _merge_two_yields(cs):
+    """A generator whose loop yields on two exclusive paths -- `if c: [if x:] yield a; return` / `yield b` -- read as ONE yield of
+    `a if c else b` under `(c and x) or not c`; the `return` between the two leaves the loop before the yield where nothing was
+    yielded (c and not x) and after it otherwise.  A copy of the summary with that single yield, or None (another shape)."""
+    import dataclasses
+    y1, y2 = cs.yields
+    if y1.loops != y2.loops or not y1.loops or y1.term[0] == "yieldfrom" or y2.term[0] == "yieldfrom" or y1.handlers or y2.handlers:
+        return None
+    between = [e for e in cs.events if y1.idx < e.idx < y2.idx]
+    if any(e.kind != "return" or e.loops != y1.loops or not isinstance(e.node, ast.Return) for e in between):
+        return None
+    c1, c2 = list(conjuncts(y1.live)), list(conjuncts(y2.live))
+    k = 0
+    while k < min(len(c1), len(c2)) and c1[k] == c2[k]:
+        k += 1
+    if k >= len(c1) or k >= len(c2) or c2[k] != NOT(c1[k]) or len(c2) != k + 1:
+        return None
+    c, extra, prefix = c1[k], c1[k + 1:], c1[:k]
+    if any(list(conjuncts(e.live)) != prefix + [c] for e in between):
+        return None
+    merged = dataclasses.replace(y2, live=AND(*prefix, OR(AND(c, *extra), NOT(c))), term=ITE(c, y1.term, y2.term))
+    events = []
+    for e in cs.events:
+        if e is y1:
+            continue
+        if e in between:
+            if extra:
+                events.append(dataclasses.replace(e, live=AND(*prefix, c, NOT(AND(*extra)))))  # nothing yielded: leaves at once
+            continue
+        if e is y2:
+            events.append(merged)
+            for r in between:
+                events.append(dataclasses.replace(r, live=AND(*prefix, c, *extra)))  # yielded, then leaves
+            continue
+        events.append(e)
+    events = [dataclasses.replace(e, idx=i) for i, e in enumerate(events)]
+    return dataclasses.replace(cs, events=events)
 
 
 NO_MATCH = ("global", "<no match>", "sentinel")  # the default of the next(...) a search helper is read as: equal to nothing else
